@@ -261,17 +261,22 @@ class Explore:
         tier = req.get("tier", "quick")
         seed = int(req.get("seed", 0) or 0)
         backends = req.get("backends") or ["tree-git", "bare-git", "vdir"]
-        depth = 5 if tier == "quick" else 3
-        sample = 250 if tier == "quick" else None
         tried = 0
         for backend in backends:
-            for h in histories(depth, seed, sample):
+            if tier == "quick":
+                hs = histories(5, seed, 250)
+            else:
+                # all histories of length <= 2, then a large seeded sample of longer ones
+                hs = itertools.chain(histories(2, seed, None), histories(6, seed + 1, 3000))
+            for h in hs:
                 tried += 1
                 bad = run_history(backend, h)
                 if bad:
                     return {"failing": True, "tried": tried, "input": {"backend": bad["backend"], "history": bad["history"]},
                             "expected": bad["expected"], "observed": bad["observed"], "step": bad["step"], "log": bad["log"]}
-        return {"failing": False, "tried": tried, "bound": f"depth {depth}, {'sample ' + str(sample) if sample else 'exhaustive'} per backend"}
+        return {"failing": False, "tried": tried,
+                "bound": ("250 seeded histories of length 2-5 per back end" if tier == "quick"
+                          else "all histories of length <= 2 plus 3000 seeded histories of length 2-6, per back end")}
 
     def search(self, req):
         r = self.bounded(dict(req, tier="quick"))
